@@ -360,7 +360,7 @@ pub fn scope_bound_uris(m: &Model, e: Lid) -> Vec<String> {
 
 /// repair motifs (C10): repair a whole tree, add something in a namespace nobody declares below
 /// a nested element, repair that element; or the same with a subtree moved away in between
-pub fn gen_motif(m: &Model, rng: &mut Rng, home: &[Lid]) -> Option<Vec<Op>> {
+pub fn gen_motif(m: &Model, rng: &mut Rng, home: &[Lid], representable: bool) -> Option<Vec<Op>> {
     let p = Picker::new(m, home, 50);
     if rng.pct(20) {
         // the xml prefix is bound (the API and the parser allow it) to a namespace that names below
@@ -387,6 +387,11 @@ pub fn gen_motif(m: &Model, rng: &mut Rng, home: &[Lid]) -> Option<Vec<Op>> {
             }
         }
         ops.push(Op::CreateMissingPrefixes { n: m.root_of(e) });
+        // ... and something below is copied out together with the prefixes it needs
+        let below: Vec<Lid> = m.subtree(e).into_iter().filter(|l| *l != e && m.k(*l) == K::Elem).collect();
+        if let Some(c) = rng.pick_opt(&below) {
+            ops.push(Op::CloneWithPrefixes { n: *c });
+        }
         return Some(ops);
     }
     if rng.pct(40) {
@@ -439,7 +444,11 @@ pub fn gen_motif(m: &Model, rng: &mut Rng, home: &[Lid]) -> Option<Vec<Op>> {
     }
     let e = p.of(rng, |l| m.k(l) == K::Elem && m.n(l).parent.is_some() && m.n(l).kids.iter().any(|k| m.k(*k) == K::Elem))?;
     let root = m.root_of(e);
-    let fresh = Nm::new(rng.pick_str(&LOCALS), rng.pick_str(&URIS));
+    let mut fresh = Nm::new(rng.pick_str(&LOCALS), rng.pick_str(&URIS));
+    if !representable && rng.pct(15) {
+        // a name in the namespace reserved for declarations (the API lets it be built)
+        fresh = Nm::new(rng.pick_str(&["p", "a"]), "http://www.w3.org/2000/xmlns/");
+    }
     let mut ops = vec![Op::CreateMissingPrefixes { n: root }];
     match rng.below(3) {
         0 => ops.push(Op::AppendElement { p: e, name: fresh }),
@@ -490,6 +499,30 @@ pub fn gen_space_motif(m: &Model, rng: &mut Rng, home: &[Lid]) -> Option<Vec<Op>
         ops.push(Op::AppendText { p: e, s: " ".to_string() });
     }
     ops.push(Op::RemoveInsignificantWhitespace { n: if rng.pct(60) { m.root_of(e) } else { e } });
+    Some(ops)
+}
+
+/// the text node before an element that stands between two text nodes becomes empty (length 0 is
+/// a legal length), then the element is unwrapped, moved behind the later text, or removed: the
+/// merges that this causes have an empty survivor to deal with
+pub fn gen_empty_text_motif(m: &Model, rng: &mut Rng, home: &[Lid]) -> Option<Vec<Op>> {
+    let p = Picker::new(m, home, 50);
+    let a = p.of(rng, |l| {
+        m.kid_index(l).map_or(false, |(par, i)| {
+            let sibs = &m.n(par).kids;
+            m.k(l) != K::Text && i > 0 && i + 1 < sibs.len() && m.k(sibs[i - 1]) == K::Text && m.k(sibs[i + 1]) == K::Text
+        })
+    })?;
+    let (par, i) = m.kid_index(a)?;
+    let (before, after) = (m.n(par).kids[i - 1], m.n(par).kids[i + 1]);
+    let mut ops = vec![Op::TextSet { n: before, s: String::new() }];
+    ops.push(match rng.below(5) {
+        0 if m.k(a) == K::Elem => Op::Unwrap { n: a },
+        1 => Op::InsertAfter { r: after, c: a },
+        2 => Op::Remove { n: a },
+        3 => Op::Detach { n: a },
+        _ => Op::Append { p: par, c: a },
+    });
     Some(ops)
 }
 
